@@ -60,6 +60,9 @@ fn pair_programs() -> Vec<(&'static str, &'static str, &'static str)> {
         ("let m = map {a: 10}; m[b] = 20; [get(m, a), len(m)]", "[i20,i1]", "[i10,i2]"),
         ("let m = map {a: 10}; insert(m, b, 20); [m[a], m[b], len(m)]", "[i20,i20,i1]", "[i10,i20,i2]"),
         ("get(map {a: 1, b: 2}, b)", "i2", "i2"),
+        // a present key whose value is null is still present
+        ("let m = map {a: null}; [m[b], contains(m, b), len(m)]", "[null,true,i1]", "ERR"),
+        ("let m = map {a: 10}; m[b] = null; [m[a], len(m)]", "[null,i1]", "[i10,i2]"),
     ]
 }
 
@@ -190,9 +193,19 @@ impl Property for P10 {
             let mut runs = 1;
             for (prog, if_same, if_diff) in pair_programs() {
                 runs += 1;
-                let want = if same { if_same } else { if_diff };
+                let mut want = if same { if_same } else { if_diff };
+                // NaN is not a valid key (it is not equal to itself): a program that uses it as one must stop with an error
+                let is_nan = |v: &V| matches!(v, V::Float(f) if f.is_nan());
+                let uses_a_as_key = prog.contains("{a:") || prog.contains("m[a]") || prog.contains("insert(m, a");
+                let uses_b_as_key = true; // every access program looks b up or inserts it
+                if (is_nan(a) && uses_a_as_key) || (is_nan(b) && uses_b_as_key) {
+                    // get/contains with an invalid key may also answer null/false; an insertion or index must fail
+                    want = "ERR";
+                }
                 let got = eval_with_operands(prog, a, b);
+                let lookup_only_b = is_nan(b) && !is_nan(a) && (prog.starts_with("get(") || prog.starts_with("contains(") || prog.ends_with("get(m, b)") || prog.ends_with("contains(m, b)"));
                 let ok = match &got {
+                    Ok(Outcome::Value(g)) if lookup_only_b => g == "null" || g == "false" || g == "i2",
                     Ok(Outcome::Value(g)) => g == want,
                     Ok(Outcome::RtErr(..)) => want == "ERR",
                     _ => false,
@@ -283,7 +296,7 @@ impl Property for P10 {
         }
     }
     fn rule(&self) -> String {
-        format!("(i) all {}^2 ordered pairs of a {}-key domain (ints incl. 2^53+1, integral/non-integral floats, +-0.0, NaN, bytes, chars, strings, bools, null, builtins, nested arrays) x 12 access programs (literal vs insert/index-assignment population; m[k], get, contains, insert's return value, len, overwrite); oracle: same entry iff the VM's own k1 == k2; (ii) one breadth-first search over histories of insert(m,k,v) and m[k]=v with 8 mutually colliding keys {:?} x 2 values, states canonicalised as the association list including which key object is stored, run to a fixpoint; after every transition the real map (fresh object, history replayed on the real code) is probed with every key via get/contains and len and compared with the model", self.keys.len(), self.keys.len(), HKEYS)
+        format!("(i) all {}^2 ordered pairs of a {}-key domain (ints incl. 2^53+1, integral/non-integral floats, +-0.0, NaN, bytes, chars, strings, bools, null, builtins, nested arrays) x 14 access programs (literal vs insert/index-assignment population; m[k], get, contains, insert's return value, len, overwrite); oracle: same entry iff the VM's own k1 == k2 (NaN, which is not equal to itself, must be refused as a key); (ii) one breadth-first search over histories of insert(m,k,v) and m[k]=v with 8 mutually colliding keys {:?} x 2 values, states canonicalised as the association list including which key object is stored, run to a fixpoint; after every transition the real map (fresh object, history replayed on the real code) is probed with every key via get/contains and len and compared with the model", self.keys.len(), self.keys.len(), HKEYS)
     }
     fn bounds(&self) -> Value {
         json!({"keys": self.keys.len(), "history_keys": HKEYS.len(), "history_values": 2, "bfs": "fixpoint (depth cap 6 quick / 12 thorough, not reached if the evidence class says so)"})
